@@ -6,8 +6,8 @@
    [old] variant in Proofs_examples.v, where the Examples showing that the
    hypotheses are inhabited live as well. *)
 From Coq Require Import String Ascii.
-From Sdns Require Import Common.Base Gen.C20 C20.Model C20.Spec
-  C20.Proofs_gen C20.Proofs_embed C20.Proofs_ptr C20.Proofs_serve.
+From Sdns Require Import Common.Base Common.GoList Gen.C20 C20.Model C20.Spec
+  C20.Proofs_gen C20.Proofs_embed C20.Proofs_ptr C20.Proofs_serve C20.Proofs_loops.
 Open Scope N_scope.
 
 (* ------------------------------------------------------------------ *)
@@ -257,3 +257,34 @@ Theorem never_ad :
   x_reply (serve cur cf q down work al cut) = Some r -> r_same r = false -> r_ad r = false.
 Proof. exact never_ad_now. Qed.
 Print Assumptions never_ad.
+
+(* ------------------------------------------------------------------ *)
+(* source ties through the translator's loops (Gen/C20.v is regenerated from
+   /repo on every run): the suffix test of extractIPv4 and the label loop of
+   parseIP6ArpaName, as the Go source has them, compute what the model says *)
+Theorem bytes_all_zero_loop_is_model :
+  forall l, go_bytesAllZero l = all_zero l.
+Proof. exact gen_bytesAllZero. Qed.
+Print Assumptions bytes_all_zero_loop_is_model.
+
+Theorem arpa_label_loop_is_model :
+  forall parts, length parts = 32%nat ->
+  match nibbles parts with
+  | Some ns => go_parseIP6ArpaName_loop1_run parts (zeros 16) = (GoNext, (parts, pair_up (rev ns)))
+  | None => exists st, go_parseIP6ArpaName_loop1_run parts (zeros 16) = (GoRet ([], false), st)
+  end.
+Proof. exact gen_parse_ip6_arpa_loop. Qed.
+Print Assumptions arpa_label_loop_is_model.
+
+Theorem parse_ip6_arpa_is_translated_loop :
+  forall qname,
+  let q := trim_suffix (lower qname) [46] in
+  has_suffix q sfx_ip6_arpa = true ->
+  let parts := split_on 46 (trim_suffix q sfx_ip6_arpa) in
+  length parts = 32%nat ->
+  match parse_ip6_arpa qname with
+  | Some a => go_parseIP6ArpaName_loop1_run parts (zeros 16) = (GoNext, (parts, a))
+  | None => exists st, go_parseIP6ArpaName_loop1_run parts (zeros 16) = (GoRet ([], false), st)
+  end.
+Proof. exact parse_ip6_arpa_by_gen_loop. Qed.
+Print Assumptions parse_ip6_arpa_is_translated_loop.
